@@ -55,6 +55,9 @@ CLAIMS = {
     "C16": ("property-based testing (rapid): permutation/collision relations on schema keys; constructed dependent-body scenarios with a marker per body and cross-feature agreement",
             "Key level: NewSchemaKey is compared across permutations and across different key sets (canonical form computed by the harness). Feature level: for a constructed block with dependent bodies registered under permuted key sets and an instance written to select one, hover, tokens, validation, targets, origins, completion and links must all reflect exactly the body the reference model (and the construction) selects.",
             "4/C16", TRUST + " Two-step (second-level) selection is covered through the general generator by C07/C12/C13/C15."),
+    "C10": ("property-based testing (rapid): differential against HCL's own Variables() on the places a reference model (constraint-directed structural descent on the serialisable schema) says admit references",
+            "Generated schemas and type-correct, reference-heavy expressions; the expected set of (address, range) is computed from HCL's Variables() restricted to admitting places of the effective schema and compared with CollectReferenceOrigins (local origins exactly, ordering, path and direct origins).",
+            "4/C10", TRUST + " Statement-silent classes (for iterator variables, arguments of unknown / parameterless functions, surplus arguments, key expressions, dynamic blocks) are don't-care regions."),
 }
 
 def main():
